@@ -20,7 +20,7 @@ pub fn stub_clean_squitter(_line: &str) -> Option<Vec<u32>> {
     }
 }
 
-fn offer14(m: &[u32; 14]) -> Option<Vec<u32>> {
+pub fn offer14(m: &[u32; 14]) -> Option<Vec<u32>> {
     unsafe {
         let mut i = 0;
         while i < 14 {
@@ -40,7 +40,7 @@ fn offer14(m: &[u32; 14]) -> Option<Vec<u32>> {
         get_message(&s)
     }
 }
-fn offer28(m: &[u32; 28]) -> Option<Vec<u32>> {
+pub fn offer28(m: &[u32; 28]) -> Option<Vec<u32>> {
     unsafe {
         let mut i = 0;
         while i < 28 {
